@@ -48,6 +48,9 @@ func runC11(c *Ctx) {
 	}
 
 	ruleCloseMarks(c, p, "C11.close-marks")
+	if roles := resolveDo(c, p); roles != nil {
+		ruleWatch(c, p, roles, "C11")
+	}
 
 	// ---- C11.handle
 	rule := "C11.handle"
@@ -242,6 +245,34 @@ func runC11(c *Ctx) {
 		}
 	}()
 
+	// ---- C11.bypass
+	rule = "C11.bypass"
+	c.R.Rule(rule, "who-may-return: outside (*chpool.Client).Release - the one place that tests IsClosed and the lifetime - a function of package chpool that returns a resource to the idle set with Resource.Release never also reaches the connection inside it (Resource.Value): a connection that has been used is always handed back through the guarded Release")
+	func() {
+		n := 0
+		for _, fn := range p.Funcs() {
+			if pkgOf(fn) == nil || pkgOf(fn).Path() != core.PkgPool || fn.Blocks == nil {
+				continue
+			}
+			if core.IsMethod(fnObj(fn), core.PkgPool, "Client", "Release") {
+				continue
+			}
+			rels := core.FindCalls(fn, isResourceMethod("Release"))
+			if len(rels) == 0 {
+				continue
+			}
+			n++
+			vals := core.FindCalls(fn, isResourceMethod("Value"))
+			key := core.FuncName(fn)
+			if len(vals) > 0 {
+				c.R.Bad(rule, key, cfg, p.Pos(rels[0].Pos()), "this function uses the pooled connection (Resource.Value) and returns it to the idle set with Resource.Release itself: the closed-client and MaxConnLifetime tests of chpool.Client.Release are bypassed, a dead or expired connection is reissued")
+			} else {
+				c.R.Ok(rule, key, cfg, p.Pos(rels[0].Pos()), "returns an unused resource")
+			}
+		}
+		c.R.Count("direct Resource.Release outside Client.Release", n)
+	}()
+
 	// ---- C11.pairing
 	rule = "C11.pairing"
 	c.R.Rule(rule, "pairing: every resource the pool takes for itself is given back on every path - Pool.Do/Ping defer Release right after a successful Acquire, the dial probe releases what it acquired, and every element of AcquireAllIdle reaches exactly one of Destroy / ReleaseUnused in each iteration")
@@ -410,7 +441,9 @@ func runC11(c *Ctx) {
 				}
 			}
 		}
-		isDial := func(f *types.Func) bool { return core.IsFunc(f, core.PkgCh, "Dial") || core.IsFunc(f, core.PkgCh, "Connect") }
+		isDial := func(f *types.Func) bool {
+			return core.IsFunc(f, core.PkgCh, "Dial") || core.IsFunc(f, core.PkgCh, "Connect")
+		}
 		bad := false
 		for _, fn := range p.Funcs() {
 			if fn.Pkg == nil || fn.Pkg.Pkg.Path() != core.PkgPool {
@@ -511,4 +544,13 @@ func loopHeaderOf(b *ssa.BasicBlock) *ssa.BasicBlock {
 		}
 	}
 	return best
+}
+
+// fnObj returns the types.Func of a source function (nil for closures / synthetic).
+func fnObj(fn *ssa.Function) *types.Func {
+	if fn == nil {
+		return nil
+	}
+	f, _ := fn.Object().(*types.Func)
+	return f
 }
